@@ -383,8 +383,8 @@ P("C12",
   level_text="Fault injection as solver variables: the position of the failing read/seek among all underlying calls of a buffer refill is symbolic; Ok results must equal the fault-free content, retries must not return stale bytes.",
   level_note="One fault per scenario, concrete scenario (second refill of a buffered read).", bounds="1 fault, 8-byte window, 100-byte stream", outside="pairs of faults, faults during open/walk")
 P("C13",
-  level_text="Fault injection as solver variables for write/seek/flush during write-back (cache level) and during chain freeing: the error surfaces, later calls do not panic, flush Ok implies the bytes are stored.",
-  level_note="One fault per scenario; the fault position is enumerated per instance.  Harnesses for faults inside a directory-entry update and the first mini-sector allocation exist but are parked (no verdict obtained).", bounds="1 fault per scenario", outside="pairs of faults; faults in directory updates, FAT growth, first mini sector; retries through another handle")
+  level_text="Fault injection for write/seek/flush during write-back (cache level), chain freeing and directory-entry updates: the error surfaces, later calls do not panic, and when the retried call returns Ok the bytes / the entry are in the file image (own decoder).",
+  level_note="One fault per scenario; the fault position is enumerated per instance.", bounds="1 fault per scenario, position k enumerated (see harness names)", outside="pairs of faults; faults inside FAT growth, directory growth and the first mini-sector allocation beyond its first two backend calls; retries through another handle")
 P("C14", level="other",
   level_text="Sequential lock discipline decided by the solver on the real code with an instrumented lock: no acquisition while a guard of the same lock is live, guards released before returning, no try-lock that panics under contention.  Freedom from deadlock follows for a single lock with no other blocking primitive (argued on paper).",
   level_note="Thread schedules are NOT explored by any engine in this family (Kani does not model threads); progress under real contention is outside.",
